@@ -118,7 +118,7 @@ func KeyPool(r *rand.Rand, n int) []string {
 			case 1: // arbitrary bytes
 				b[i] = byte(r.IntN(256))
 			case 2: // separators and dots
-				b[i] = "/.#\x00\\ "[r.IntN(7)]
+				b[i] = "/.#\x00\\ "[r.IntN(6)]
 			default:
 				b[i] = byte('a' + r.IntN(26))
 			}
